@@ -468,7 +468,8 @@ def evaluate__sum(self: XPathFunction, context: ta.ContextType = None) -> ta.One
         result = sum(values)
     else:
         try:
-            result = sum(self.number_value(x) for x in values)
+            numbers = [self.number_value(x) for x in values]
+            result = sum(numbers[1:], start=numbers[0])  # no integer 0: keeps a negative zero
         except TypeError:
             if self.parser.version == '1.0':
                 return math.nan
